@@ -1,5 +1,6 @@
 """JSON with tags for the Python values that case specs need (bytes, NaN/inf, tuples, sets,
 opaque objects).  Specs stay readable and replay exactly."""
+import ipaddress
 import json
 import math
 
@@ -59,9 +60,19 @@ def py_name(v):
     return None
 
 
+class StrSub(str):
+    """A value that is text, but of a subclass of str (as members of `class Mode(str, Enum)` or a labelled string are)."""
+
+    __slots__ = ()
+
+
 def enc(v):
+    if type(v) is StrSub:
+        return {"$ss": str(v)}
     if v is None or isinstance(v, (bool, str)):
         return v
+    if isinstance(v, ipaddress.IPv4Address):
+        return {"$ip4": str(v)}
     if not isinstance(v, (int, float, bytes, list, dict, tuple)) and py_name(v):
         return {"$py": py_name(v)}
     if isinstance(v, int):
@@ -118,6 +129,10 @@ def dec(v):
                 return copy.deepcopy(PYOBJ[x])
             if k == "$f":
                 return float(x)
+            if k == "$ss":
+                return StrSub(x)
+            if k == "$ip4":
+                return ipaddress.IPv4Address(x)
             if k == "$b":
                 return bytes.fromhex(x)
             if k == "$ba":
